@@ -3,6 +3,8 @@
 //! note: FundedChannel::build_closing_transaction: a cooperative close pays each party its final balance less only the negotiated fee, paid by the funder
 //! trusted: R5: FundedChannel / ChannelContext / FundingScope / ChannelTransactionParameters are self skeletons with exactly the fields the body reads; FundingScope::is_outbound / get_value_satoshis are extracted and verified; ClosingTransaction::new is external_body and assumed to record the two output values; get_closing_scriptpubkey / funding_outpoint / into_bitcoin_outpoint / ScriptBuf::clone are external_body (scripts and outpoints are opaque); R8: `ChannelError::close(format!(..))` replaced by a stub constructor (error text has no effect on the result value's variant)
 //! trusted: R15 (deep slice): closing_signed: the unit extracts the whole fee-negotiation statement (fee-range and legacy branches) that follows calculate_closing_fee_limits, verbatim, as a function of (msg, our_min_fee, our_max_fee); the function-local macro propose_fee!(X) (builds, signs and returns the closing transaction with fee X) is replaced by `return Ok(X)`; signature checks and transaction building before it are dropped and not claimed; error strings dropped (R8); assume_specification for u64::div_ceil and core::cmp::min / core::cmp::max (std definitions)
+//! trusted: calculate_closing_fee_limits whole: R5: self skeleton (funding: outbound / value / value_to_self_msat; context: cached limits, target feerate, current feerate, force_close_avoidance_max_fee_satoshis, the peer's shutdown script); the fee estimator answers an uninterpreted est(target); get_closing_transaction_weight answers the skeleton's weight; R8: `opt.clone().unwrap()` on the cached pair -> limits_of
+//! assume: closing transaction weight <= 4e6 WU, force_close_avoidance_max_fee_satoshis < 2^63 (no overflow of the fee sums)
 //! assume: closing_signed negotiation: our_min_fee <= our_max_fee; the fee we sent last lies within our limits; for the non-paying side our_max_fee is the peer's whole balance (calculate_closing_fee_limits)
 //! assume: no pending HTLCs or fee update (LDK's assert!s); channel value <= 21e14 sat; value_to_self_msat <= channel value; the funder's balance covers the proposed fee (established by the closing-fee negotiation; LDK's own debug_assert!s)
 use vstd::prelude::*;
@@ -98,6 +100,69 @@ pub struct NegFunding { pub outbound: bool, pub value_satoshis: u64, pub value_t
 impl NegFunding {
     #[verifier::external_body] pub fn is_outbound(&self) -> (r: bool) ensures r == self.outbound { unimplemented!() }
     #[verifier::external_body] pub fn get_value_satoshis(&self) -> (r: u64) ensures r == self.value_satoshis { unimplemented!() }
+}
+
+// ---- cooperative close: the fee limits we negotiate within (FundedChannel::calculate_closing_fee_limits whole) ----
+pub enum ConfirmationTarget { ChannelCloseMinimum, NonAnchorChannelFee, Other }
+pub uninterp spec fn est(t: ConfirmationTarget) -> u32;
+pub struct LowerBoundedFeeEstimator {}
+impl LowerBoundedFeeEstimator { #[verifier::external_body] pub fn bounded_sat_per_1000_weight(&self, t: ConfirmationTarget) -> (r: u32) ensures r == est(t) { unimplemented!() } }
+pub struct LimOptions { pub force_close_avoidance_max_fee_satoshis: u64 }
+pub struct LimConfig { pub options: LimOptions }
+pub struct LimCtx { pub closing_fee_limits: Option<(u64, u64)>, pub target_closing_feerate_sats_per_kw: Option<u32>, pub feerate_per_kw: u32, pub config: LimConfig, pub counterparty_shutdown_scriptpubkey: Option<ScriptBuf>, pub weight: u64 }
+pub struct LimChannel { pub funding: NegFunding, pub context: LimCtx }
+#[verifier::external_body] pub fn limits_of(l: &Option<(u64, u64)>) -> (r: (u64, u64)) requires *l is Some ensures r == l->Some_0 { unimplemented!() }
+pub open spec fn maxu32(a: u32, b: u32) -> u32 { if a >= b { a } else { b } }
+pub open spec fn limits_spec(c: LimChannel) -> (int, int) {
+    let bg = est(ConfirmationTarget::ChannelCloseMinimum); let normal = est(ConfirmationTarget::NonAnchorChannelFee); let w = c.context.weight as int; let ob = c.funding.outbound;
+    let floor: u32 = match c.context.target_closing_feerate_sats_per_kw { Some(t) => if ob { t } else if c.context.feerate_per_kw <= t { c.context.feerate_per_kw } else { t }, None => 0u32 };
+    let pf = maxu32(bg, floor);
+    let pmf = maxu32(if ob { normal } else { u32::MAX }, floor);
+    let a = normal as int * w / 1000 + c.context.config.options.force_close_avoidance_max_fee_satoshis as int; let b = pmf as int * w / 1000;
+    (pf as int * w / 1000,
+     if ob { if a >= b { a } else { b } }
+     else { c.funding.value_satoshis as int - (if c.funding.value_to_self_msat as int % 1000 == 0 { c.funding.value_to_self_msat as int / 1000 } else { c.funding.value_to_self_msat as int / 1000 + 1 }) })
+}
+impl LimChannel {
+    #[verifier::external_body] fn get_closing_scriptpubkey(&self) -> ScriptBuf { unimplemented!() }
+    #[verifier::external_body] fn get_closing_transaction_weight(&self, a: Option<&ScriptBuf>, b: Option<&ScriptBuf>) -> (r: u64) ensures r == self.context.weight { unimplemented!() }
+//@extract lightning/src/ln/channel.rs :: impl FundedChannel :: fn calculate_closing_fee_limits
+//@rw R5
+    fn calculate_closing_fee_limits<F: FeeEstimator>( &mut self, fee_estimator: &LowerBoundedFeeEstimator<F>, )
+//@with
+    fn calculate_closing_fee_limits( &mut self, fee_estimator: &LowerBoundedFeeEstimator, )
+//@rw R8
+    self.context.closing_fee_limits.clone().unwrap()
+//@with
+    limits_of(&self.context.closing_fee_limits)
+//@ret r
+//@requires
+    old(self).context.weight <= 4_000_000, old(self).context.config.options.force_close_avoidance_max_fee_satoshis <= 0x7fff_ffff_ffff_ffff,
+    old(self).context.counterparty_shutdown_scriptpubkey is Some,
+    old(self).funding.value_to_self_msat <= old(self).funding.value_satoshis * 1000, old(self).funding.value_satoshis <= 21_000_000_0000_0000,
+//@at before `let proposed_total_fee_satoshis`
+    proof {
+        assert(proposed_feerate as int * tx_weight as int <= 0xffff_ffff * 4_000_000) by (nonlinear_arith) requires proposed_feerate <= 0xffff_ffff, 0 <= tx_weight <= 4_000_000;
+        assert(normal_feerate as int * tx_weight as int <= 0xffff_ffff * 4_000_000) by (nonlinear_arith) requires normal_feerate <= 0xffff_ffff, 0 <= tx_weight <= 4_000_000;
+        assert(proposed_max_feerate as int * tx_weight as int <= 0xffff_ffff * 4_000_000) by (nonlinear_arith) requires proposed_max_feerate <= 0xffff_ffff, 0 <= tx_weight <= 4_000_000;
+    }
+//@ensures P C01 the-closing-fee-limits-are-computed-once-and-kept-the-lowest-fee-we-propose-is-the-estimators-minimum-or-the-users-target-and-as-the-side-that-does-not-pay-we-accept-up-to-the-payers-whole-balance-never-more
+    old(self).context.closing_fee_limits is Some ==> r == old(self).context.closing_fee_limits->Some_0 && final(self).context.closing_fee_limits == old(self).context.closing_fee_limits,
+    old(self).context.closing_fee_limits is None ==> (r.0 as int, r.1 as int) == limits_spec(*old(self)) && final(self).context.closing_fee_limits == Some(r),
+    final(self).funding == old(self).funding,
+//@mutant non_payers_ceiling_rounds_our_own_balance_down
+    self.funding.value_to_self_msat.div_ceil(1000)
+//@with
+    self.funding.value_to_self_msat / 1000
+//@mutant payers_ceiling_set_for_the_side_that_does_not_pay
+    if self.funding.is_outbound() { normal_feerate } else { u32::MAX };
+//@with
+    if !self.funding.is_outbound() { normal_feerate } else { u32::MAX };
+//@mutant cached_limits_recomputed
+    if let Some((min, max)) = self.context.closing_fee_limits { return (min, max); }
+//@with
+    if let Some((min, max)) = self.context.closing_fee_limits { return (max, max); }
+//@end
 }
 pub struct NegCtx { pub last_sent_closing_fee: Option<(u64, u8, u8, u8)> }
 pub struct NegChannel { pub funding: NegFunding, pub context: NegCtx }
